@@ -728,6 +728,10 @@ class Dict(dict, base.Symbolic, pg_typing.CustomTyping):
                               'accessor_writable is set to False. '
                               'Use \'rebind\' method instead.'))
 
+    self._delete_item(name)
+
+  def _delete_item(self, name: Union[str, int]) -> None:
+    """Deletes a key. The permission checks are up to the caller."""
     if name not in self:
       raise KeyError(
           self._error_message(f'Key does not exist in Dict: {name!r}.'))
@@ -776,8 +780,11 @@ class Dict(dict, base.Symbolic, pg_typing.CustomTyping):
     """Pops a key from current dict."""
     if key in self:
       value = self[key]
-      with flags.allow_writable_accessors(True):
-        del self[key]
+      # NOTE: `pop` is not an accessor: it works with `accessor_writable=False`.
+      # The change callbacks run under the caller's scope, not a permissive one.
+      if base.treats_as_sealed(self):
+        raise base.WritePermissionError('Cannot del item from a sealed Dict.')
+      self._delete_item(key)
       return value if value != pg_typing.MISSING_VALUE else default
     if default is base.RAISE_IF_NOT_FOUND:
       raise KeyError(key)
